@@ -266,18 +266,21 @@ pub fn decode_icc(stream: &[u8]) -> Result<Vec<u8>> {
             };
 
             let tagstart = if command & 64 == 0 {
-                prev_tagstart + prev_tagsize
+                (prev_tagstart + prev_tagsize) as u64
             } else {
-                varint(&mut commands_stream)? as u32
+                varint(&mut commands_stream)?
             };
             let tagsize = match tag {
-                _ if command & 128 != 0 => varint(&mut commands_stream)? as u32,
+                _ if command & 128 != 0 => varint(&mut commands_stream)?,
                 b"rXYZ" | b"gXYZ" | b"bXYZ" | b"kXYZ" | b"wtpt" | b"bkpt" | b"lumi" => 20,
-                _ => prev_tagsize,
+                _ => prev_tagsize as u64,
             };
-            if (tagstart as u64 + tagsize as u64) > output_size {
+            // Compare before narrowing: offsets and sizes that do not fit 32 bits are out of range.
+            if tagstart.saturating_add(tagsize) > output_size {
                 return Err(Error::InvalidIccStream("ICC profile size mismatch"));
             }
+            let tagstart = tagstart as u32;
+            let tagsize = tagsize as u32;
 
             prev_tagstart = tagstart;
             prev_tagsize = tagsize;
